@@ -291,8 +291,13 @@ func Harness_C03_gates() {
 		// the blacklist entry is the address itself or a range that contains it (also written in
 		// the IPv4-mapped IPv6 notation); the transport reports the peer as a TCP address (4- or
 		// 16-byte form) or only as text, plain or IPv4-mapped
-		entry := []string{"10.0.0.1", "10.0.0.0/8", "10.0.0.0/31", "::ffff:10.0.0.0/104", "0.0.0.0/0"}[verif_Choose(5)]
-		switch verif_Choose(4) {
+		ei := verif_Choose(5)
+		entry := []string{"10.0.0.1", "10.0.0.0/8", "10.0.0.0/31", "::ffff:10.0.0.0/104", "0.0.0.0/0"}[ei]
+		fi := verif_Choose(4)
+		// one cover point per class (entry form x address form), before the assertions: every
+		// class's witness is replayed against the real address parsing and matching code
+		verif_Cover("C03.gate.class." + []string{"exact", "range8", "range31", "mapped104", "all"}[ei] + "." + []string{"tcp4", "tcp16", "text", "mappedtext"}[fi])
+		switch fi {
 		case 1:
 			c.rw.ip = net.ParseIP("10.0.0.1").To16()
 		case 2:
